@@ -4,6 +4,7 @@ import UralModel.Py.Split
 import UralModel.Py.Re
 import UralModel.Model.Protocol
 import UralModel.Model.Builders
+import UralModel.Model.UrlParts
 import UralModel.Gen.C19FacebookTables
 /-!
 # Model of `ural/facebook.py` (property C19, part `facebook`)
@@ -30,8 +31,9 @@ Conventions (DESIGN.md §4):
   (`FACEBOOK_ID_RE`, `FACEBOOK_FULL_ID_RE`, `FACEBOOK_DOMAIN_RE` as `search`,
   `MOBILE_REPLACE_RE` as `sub`, `URL_EXTRACT_RE` as `search` + group 2), except
   `MISTAKES_RE.sub("&", query)` (`fix_common_query_mistakes`) which is the hand-written
-  `fixMistakes` (the round-trip theorems reason about it); the driver runs the generic
-  substitution next to it on every input (three-way comparison with the real `re`).
+  `fixMistakes`, and `SLASH_SQUEEZE_RE.sub("/", path)` which is the hand-written
+  `UrlParts.squeezeSlashes` (the round-trip theorems reason about both); the driver runs the
+  generic substitution next to them on every input (three-way comparison with the real `re`).
 -/
 namespace Ural.Facebook
 open Ural.Py Ural
@@ -90,10 +92,10 @@ where
     | [] => cur
     | (s, t) :: ms => cur.take (cur.length - s.length) ++ repl ++ go t ms
 
-/-- facebook.py:35-36 -/
+/-- facebook.py:37-38 -/
 def is_facebook_id (value : Str) : Bool := reSearch FACEBOOK_ID_RE value
 
-/-- facebook.py:39-40 -/
+/-- facebook.py:41-42 -/
 def is_facebook_full_id (value : Str) : Bool := reSearch FACEBOOK_FULL_ID_RE value
 
 /-! ## `ural/utils.py`, `ural/get_hostname.py` -/
@@ -168,7 +170,7 @@ def qsGet (q : List (Str × Str)) (key : Str) : Option (List Str) :=
 
 /-! ## predicates -/
 
-/-- facebook.py:43-59 -/
+/-- facebook.py:45-61 -/
 def is_facebook_url (url : Str) : Except Err Bool :=
   (get_hostname url).map fun h =>
     match h with
@@ -178,7 +180,7 @@ def is_facebook_url (url : Str) : Except Err Bool :=
 /-- a string literal as a Python `str` -/
 def lit (x : String) : Str := x.toList
 
-/-- facebook.py:62-71 -/
+/-- facebook.py:64-73 -/
 def is_facebook_post_url (url : Str) : Except Err Bool :=
   (is_facebook_url url).map fun fb =>
     if !fb then false
@@ -187,7 +189,7 @@ def is_facebook_post_url (url : Str) : Except Err Bool :=
       (contains url (lit "/permalink.php") && (contains url (lit "&id=") || contains url (lit "&amp;id="))) ||
       (contains url (lit "/story.php") && (contains url (lit "&id=") || contains url (lit "&amp;id=")))
 
-/-- facebook.py:74-86 -/
+/-- facebook.py:76-88 -/
 def is_facebook_link (url : Str) : Except Err Bool :=
   catchValueError
     ((safeUrlsplitE url).map fun sp =>
@@ -199,7 +201,7 @@ def is_facebook_link (url : Str) : Except Err Bool :=
         else true)
     false
 
-/-- facebook.py:89-95: `m = URL_EXTRACT_RE.search(url)`, `unquote(m.group(2))`.  The pattern
+/-- facebook.py:91-97: `m = URL_EXTRACT_RE.search(url)`, `unquote(m.group(2))`.  The pattern
 is `(?:^|[?&])(u)=([^&]+)` (table obligation `url_extract_pattern_unchanged`): group 2 is the
 match without its head `u=` (match found by the `^` branch) or `?u=` / `&u=`. -/
 def extract_url_from_facebook_link (url : Str) : Option Str :=
@@ -210,7 +212,7 @@ def extract_url_from_facebook_link (url : Str) : Option Str :=
     let g2 := if m.head? = some 'u' then m.drop 2 else m.drop 3
     some (unquote g2)
 
-/-- facebook.py:98-129.  The only exception is the documented `TypeError`. -/
+/-- facebook.py:100-131.  The only exception is the documented `TypeError`. -/
 def convert_facebook_url_to_mobile (url : Str) : Except Err Str :=
   let safe_url := ensure_protocol url (lit "http")
   let has_protocol := decide (safe_url = url)
@@ -218,7 +220,8 @@ def convert_facebook_url_to_mobile (url : Str) : Except Err Str :=
   match urlsplit safe_url with
   | none => .error .typeError
   | some sp =>
-    if !contains sp.netloc (lit "facebook") then .error .typeError
+    -- `"facebook" not in splitted.netloc.lower()`
+    if !contains (lower sp.netloc) (lit "facebook") then .error .typeError
     else
       let netloc := reSub MOBILE_REPLACE_RE (lit "m.facebook.") sp.netloc
       let result := urlunsplit20 sp.scheme netloc sp.path sp.query sp.fragment
@@ -245,13 +248,13 @@ def joinBase (path : Str) : Except Err (Option Str) :=
   | some u => .ok (some u)
   | none => .error .valueError
 
-/-- the path of `FacebookPhoto.url` when it is built from `photo.php` — facebook.py:296-302 -/
+/-- the path of `FacebookPhoto.url` when it is built from `photo.php` — facebook.py:298-306 -/
 def photoQueryPath (id : Str) (group_id album_id : Option Str) : Str :=
   lit "/photo.php?fbid=" ++ id ++
     (if truthy group_id then lit "&set=g." ++ fmtOpt group_id else []) ++
     (if truthy album_id then lit "&set=a." ++ fmtOpt album_id else [])
 
-/-- the `.url` properties — facebook.py:168-304 -/
+/-- the `.url` properties — facebook.py:170-306 -/
 def Parsed.url : Parsed → Except Err (Option Str)
   | .user id none => joinBase (lit "/profile.php?id=" ++ id)
   | .user _ (some h) => joinBase ('/' :: h)
@@ -272,7 +275,7 @@ def Parsed.url : Parsed → Except Err (Option Str)
       joinBase ('/' :: fmtOpt parent_handle ++ lit "/photos/a." ++ fmtOpt album_id ++ '/' :: id)
     else joinBase (photoQueryPath id group_id album_id)
 
-/-- `FacebookPost.full_id` — facebook.py:243-251 (`none` for the other classes: they have no
+/-- `FacebookPost.full_id` — facebook.py:245-253 (`none` for the other classes: they have no
 such attribute) -/
 def Parsed.full_id : Parsed → Option Str
   | .post id (some pid) _ _ _ => some (pid ++ '_' :: id)
@@ -295,13 +298,16 @@ abbrev Result := Except Err (Option Parsed)
 /-- `next((s for s in sets if s.startswith(p)), None)` -/
 def firstWithPrefix (sets : List Str) (p : Str) : Option Str := sets.find? fun x => startsWith x p
 
-/-- `x = next(...)`; `if x: x = x.split(p, 1)[1]` — facebook.py:367-375 -/
+/-- `y or None` for a `str` -/
+def orNone (y : Str) : Option Str := if y.isEmpty then none else some y
+
+/-- `x = next(...)`; `if x: x = x.split(p, 1)[1] or None` — facebook.py:371-381 -/
 def setId (sets : List Str) (p : Str) : Except Err (Option Str) :=
   match firstWithPrefix sets p with
   | none => .ok none
-  | some x => if x.isEmpty then .ok (some x) else (getIdx (splitStr1 x p) 1).map some
+  | some x => if x.isEmpty then .ok (some x) else (getIdx (splitStr1 x p) 1).map orNone
 
-/-- facebook.py:333-341 -/
+/-- facebook.py:339-347 -/
 def routeWatch (query : Str) : Result :=
   let q := safe_parse_qs query
   if !qsHas q (lit "v") then .ok none
@@ -310,7 +316,7 @@ def routeWatch (query : Str) : Result :=
     let video_id ← getIdx vs 0
     return some (.video video_id none)
 
-/-- facebook.py:343-349 -/
+/-- facebook.py:349-355 -/
 def routeVideos (path : Str) : Result :=
   let parts := pathsplit path
   if parts.length < 3 then .ok none
@@ -319,7 +325,7 @@ def routeVideos (path : Str) : Result :=
     let parent ← getIdx parts 0
     return some (.video id (some parent))
 
-/-- the `set` part of the photo route — facebook.py:361-375 -/
+/-- the `set` part of the photo route — facebook.py:367-381 -/
 def photoSets (q : List (Str × Str)) : Except Err (Option Str × Option Str) :=
   if qsHas q (lit "set") then do
     let sets ← qsItem q (lit "set")
@@ -328,7 +334,7 @@ def photoSets (q : List (Str × Str)) : Except Err (Option Str × Option Str) :=
     return (g, a)
   else return (none, none)
 
-/-- facebook.py:356-377 -/
+/-- facebook.py:358-383 -/
 def routePhotoQuery (query : Str) : Result :=
   let q := safe_parse_qs query
   if !qsHas q (lit "fbid") then .ok none
@@ -338,19 +344,25 @@ def routePhotoQuery (query : Str) : Result :=
     let id ← getIdx fbids 0
     return some (.photo id ga.1 none none ga.2)
 
-/-- facebook.py:379-396 -/
+/-- `if album_id.startswith("a."): album_id = album_id[2:]` — facebook.py:394-396 -/
+def albumOf (p2 : Str) : Str := if startsWith p2 (lit "a.") then p2.drop 2 else p2
+
+/-- facebook.py:385-410 -/
 def routePhotos (path : Str) : Result :=
   let parts := pathsplit path
   if parts.length < 4 then .ok none
   else do
     let parent ← getIdx parts 0
     let p2 ← getIdx parts 2
-    let album_id := replace p2 (lit "a.") []
-    let photo_id ← getIdx parts 3
-    if is_facebook_id parent then return some (.photo photo_id none (some parent) none (some album_id))
-    else return some (.photo photo_id none none (some parent) (some album_id))
+    let album_id := albumOf p2
+    -- `if not album_id: return None`
+    if album_id.isEmpty then return none
+    else do
+      let photo_id ← getIdx parts 3
+      if is_facebook_id parent then return some (.photo photo_id none (some parent) none (some album_id))
+      else return some (.photo photo_id none none (some parent) (some album_id))
 
-/-- facebook.py:399-420 -/
+/-- facebook.py:413-434 -/
 def routePosts (path : Str) : Result :=
   let parts := pathsplit path
   if parts.length < 3 then .ok none
@@ -368,7 +380,7 @@ def routePosts (path : Str) : Result :=
       if is_facebook_id p0 then return some (.post id (some p0) none none none)
       else return some (.post id none (some p0) none none)
 
-/-- facebook.py:426-433.  `not parent_id or not post_id`: a list held by the dict of
+/-- facebook.py:437-447.  `not parent_id or not post_id`: a list held by the dict of
 `parse_qs` is never empty, `None` is falsy. -/
 def routePermalink (query : Str) : Result :=
   let q := safe_parse_qs query
@@ -381,7 +393,7 @@ def routePermalink (query : Str) : Result :=
       return some (.post id (some pid) none none none)
   | _, _ => .ok none
 
-/-- facebook.py:436-454 -/
+/-- facebook.py:450-468 -/
 def routeGroups (path : Str) : Result :=
   let parts := pathsplit path
   if parts.length < 2 then .ok none
@@ -397,7 +409,7 @@ def routeGroups (path : Str) : Result :=
     if is_facebook_id g then return some (.group (some g) none)
     else return some (.group none (some g))
 
-/-- facebook.py:457-464 -/
+/-- facebook.py:471-478 -/
 def routeProfile (query : Str) : Result :=
   let q := safe_parse_qs query
   match qsGet q (lit "id") with
@@ -408,7 +420,7 @@ def routeProfile (query : Str) : Result :=
       let id ← getIdx user_id 0
       return some (.user id none)
 
-/-- facebook.py:467-474 -/
+/-- facebook.py:481-488 -/
 def routePeople (path : Str) : Result :=
   let parts := pathsplit path
   if parts.length < 3 then .ok none
@@ -416,7 +428,7 @@ def routePeople (path : Str) : Result :=
     let id ← getIdx parts 2
     return some (.user id none)
 
-/-- facebook.py:477-483 (`parts and not parts[0].endswith(".php")`: `and` short-circuits) -/
+/-- facebook.py:491-497 (`parts and not parts[0].endswith(".php")`: `and` short-circuits) -/
 def routeHandle (path : Str) : Result :=
   let parts := pathsplit path
   if parts.isEmpty then .ok none
@@ -424,7 +436,7 @@ def routeHandle (path : Str) : Result :=
     let p0 ← getIdx parts 0
     if !endsWith p0 (lit ".php") then return some (.handle p0) else return none
 
-/-- the routing on the split url — facebook.py:329-483 -/
+/-- the routing on the split url — facebook.py:335-497 -/
 def parseSplit (sp : SplitResult) : Result :=
   let path := sp.path
   if path.isEmpty || path = ['/'] then .ok none
@@ -443,7 +455,11 @@ def parseSplit (sp : SplitResult) : Result :=
   else if startsWith path (lit "/people") then routePeople path
   else routeHandle path
 
-/-- the first step of `parse_facebook_url` — facebook.py:310-322: the url to split, or `None`
+/-- `splitted._replace(path=SLASH_SQUEEZE_RE.sub("/", splitted.path))` — facebook.py:331-333
+(`SLASH_SQUEEZE_RE` is `\/{2,}`: table obligation `patterns_unchanged`) -/
+def squeezePath (sp : SplitResult) : SplitResult := { sp with path := UrlParts.squeezeSlashes sp.path }
+
+/-- the first step of `parse_facebook_url` — facebook.py:311-324: the url to split, or `None`
 (`.ok none`) when the function returns `None` at once -/
 def resolveUrl (url : Str) (allow_relative_urls : Bool) : Except Err (Option Str) :=
   if allow_relative_urls && !startsWith url (lit "http://") && !startsWith url (lit "https://") &&
@@ -453,7 +469,7 @@ def resolveUrl (url : Str) (allow_relative_urls : Bool) : Except Err (Option Str
   else
     (is_facebook_url url).map fun fb => if fb then some url else none
 
-/-- `parse_facebook_url(url, allow_relative_urls)` — facebook.py:307-483 -/
+/-- `parse_facebook_url(url, allow_relative_urls)` — facebook.py:309-497 -/
 def parse_facebook_url (url : Str) (allow_relative_urls : Bool := false) : Result :=
   match resolveUrl url allow_relative_urls with
   | .error e => .error e
@@ -463,7 +479,8 @@ def parse_facebook_url (url : Str) (allow_relative_urls : Bool := false) : Resul
     match catchValueError ((safeUrlsplitE url).map some) none with
     | .error e => .error e
     | .ok none => .ok none
-    | .ok (some sp) => parseSplit sp
+    | .ok (some sp) =>
+      parseSplit (squeezePath sp)
 
 /-- `isinstance(result, FACEBOOK_TYPES_HAVING_COMMENTS)` -/
 def hasComments : Option Parsed → Bool
@@ -472,7 +489,7 @@ def hasComments : Option Parsed → Bool
   | some (.video ..) => true
   | _ => false
 
-/-- facebook.py:489-495 -/
+/-- facebook.py:503-509 -/
 def has_facebook_comments (url : Str) (allow_relative_urls : Bool := false) : Except Err Bool :=
   match is_facebook_url url with
   | .error e => .error e
